@@ -27,6 +27,9 @@ def run(ctx):
                          'how': 'a one-child chain of that depth saved through that form on a thread with that stack size; Scad::save runs on the calling thread'})
     for case, v in zip(F, fv):
         diff, oracle, diff_fmt = v
+        # codes 20..22 (argument binding, parameter values, colour names) are C02's subject, not C13's: a file holding
+        # color("Browns") is exactly settings plus children and parses (ScadColor::Browns is the known finding of C02)
+        if oracle in (20, 21, 22): oracle = 0
         if oracle != 0:
             what = {2: 'the call panicked or the file is missing', 11: 'file does not parse as an OpenSCAD program', 30: 'the assignments at the top are not exactly the settings given',
                     31: 'no macro arm for this combination of settings'}.get(oracle, textprop.ORACLE_TEXT.get(oracle, str(oracle)))
